@@ -33,7 +33,7 @@ def required_counters(tier):
     return {'monitor:contains:CirclePixelRegion': 10, 'monitor:contains:EllipsePixelRegion': 10,
             'monitor:contains:RectanglePixelRegion': 10, 'monitor:contains:PolygonPixelRegion': 10,
             'monitor:contains:CompoundPixelRegion': 10, 'monitor:contains:PointPixelRegion': 5,
-            'monitor:contains:LinePixelRegion': 5, 'in_operator': 10, 'history-steps': 50}
+            'monitor:contains:LinePixelRegion': 5, 'in_operator': 10, 'history-steps': 50, 'sibling-regions': 10}
 
 
 def setup(obs):
@@ -63,6 +63,15 @@ def generate(rng, tier, shard, nshards):
                 p.update(inner_radius=r / 2, outer_radius=r)
             yield {'lane': 'int-overflow', 'region': S.reg(cls, meta=gen.meta_with_include(rng), **p), 'history': 0,
                    'q': {'kind': 'intfar', 'form': '1d', 'shape': None, 'dtype': dt, 'n': 60, 'rs': rng.randrange(2 ** 31), 'big': big, 'r': r}}
+            continue
+        if i % 40 == 11:
+            # sibling isolation: regions built WITHOUT meta/visual, one of them edited in place, then more built
+            a = gen.pixel_region_spec(rng)
+            for k in ('meta', 'visual'):
+                a.pop(k, None)
+            form, shape = rng.choice(FORMS)
+            yield {'lane': 'siblings', 'region': a, 'history': 0, 'edit': rng.choice(['setitem', 'update', 'ior', 'setdefault']),
+                   'q': {'kind': rng.choice(QKINDS), 'form': form, 'shape': shape, 'dtype': 'float64', 'n': 33, 'rs': rng.randrange(2 ** 31)}}
             continue
         r = rng.random()
         if r < 0.12:
@@ -216,9 +225,41 @@ def meta_as_constructed(obs, spec, region, path='region'):
               f'{type(region).__name__} constructed with meta={given} carries {dict(region.meta)} ({path})', 'meta-as-constructed')
 
 
+def run_siblings(case, obs):
+    """two regions of one class built without meta/visual; the first is made an exclusion region in place; the second
+    and a third built afterwards must still be plain include-regions that answer geometrically."""
+    import regions
+    first, second = S.build(case['region']), S.build(case['region'])
+    how = case['edit']
+    if how == 'setitem':
+        first.meta['include'] = False
+        first.visual['color'] = 'red'
+    elif how == 'update':
+        first.meta.update(include=False)
+        first.visual.update({'color': 'red'})
+    elif how == 'ior':
+        first.meta |= {'include': False}
+        first.visual |= {'color': 'red'}
+    else:
+        first.meta.setdefault('include', False)
+        first.visual.setdefault('color', 'red')
+    third = S.build(case['region'])
+    for nm, reg in (('second', second), ('third', third)):
+        obs.count('sibling-regions')
+        obs.check(dict(reg.meta) == {} and dict(reg.visual) == {}, 'fresh-region-meta-differs-from-construction',
+                  f'{type(reg).__name__} built without meta/visual carries meta={dict(reg.meta)} visual={dict(reg.visual)} '
+                  f'after a sibling was edited in place via {how} ({nm})', 'siblings')
+        obs.check(reg.meta is not first.meta and reg.visual is not first.visual, 'fresh-region-shares-meta-object',
+                  f'{type(reg).__name__} built without meta shares its meta/visual object with another instance', 'siblings')
+        reg.contains(make_queries(reg, case['q']))
+    first.contains(make_queries(first, case['q']))
+
+
 def run_case(case, obs):
     if case['lane'].startswith('suite:'):
         return monitors.replay_suite_case(case, obs)
+    if case['lane'] == 'siblings':
+        return run_siblings(case, obs)
     region = S.build(case['region'])
     meta_as_constructed(obs, case['region'], region)
     pc = make_queries(region, case['q'])
